@@ -26,7 +26,7 @@ TOp == IsEv("op") /\ opn' = [kind |-> Rec[l].kind, len |-> Rec[l].len, bad |-> R
 TWrite == IsEv("write") /\ UNCHANGED <<blen, pos, opn>>
           /\ Rec[l].n = (IF opn.kind = "send" THEN Enq(blen, pos, opn.len)[3] ELSE pos)
 TWriteErr == IsEv("write_err") /\ UNCHANGED <<blen, pos, opn>>
-TRet == /\ IsEv("ret")
+TRetAny(hooked) ==
         /\ LET e == Rec[l] IN
            /\ opn' = opn
            /\ IF opn.kind = "flush" THEN blen' = blen /\ pos' = (IF e.cls = "ok" THEN 0 ELSE pos)
@@ -36,7 +36,8 @@ TRet == /\ IsEv("ret")
                    /\ IF r[1] = "overflow" THEN e.cls = "overflow" /\ pos' = pos
                       ELSE IF opn.kind = "enqueue" THEN e.cls = "ok" /\ pos' = r[3]
                       ELSE (e.cls = "ok" /\ pos' = 0) \/ (e.cls \in {"io_err", "cancelled"} /\ pos' = r[3])
-           /\ pos' = e.pos /\ blen' = e.blen
+           /\ (hooked => pos' = e.pos /\ blen' = e.blen)
+TRet == (IsEv("ret") /\ TRetAny(TRUE)) \/ (IsEv("retq") /\ TRetAny(FALSE))
 TEnd == IsEv("end") /\ UNCHANGED <<blen, pos, opn>>
 TNext == TReset \/ TOp \/ TWrite \/ TWriteErr \/ TRet \/ TEnd
 TSpec == TInit /\ [][TNext]_tvars
